@@ -14,7 +14,7 @@ use std::sync::atomic::{AtomicU64, Ordering};
 use std::sync::Arc;
 use std::time::Duration;
 
-struct Clock(AtomicU64);
+pub struct Clock(pub AtomicU64);
 impl Env for Clock {
     fn now(&self) -> Duration {
         Duration::from_nanos(self.0.load(Ordering::SeqCst))
@@ -52,7 +52,7 @@ fn id_at(base: &[u8; 20], d: u8, rng: &mut Rng) -> [u8; 20] {
 }
 
 #[derive(Clone, Debug)]
-enum Op {
+pub enum Op {
     /// add node created `created_ago` ns before the add
     Add { id: [u8; 20], addr: SocketAddrV4, created_ago: u64 },
     Remove { id: [u8; 20] },
@@ -239,7 +239,7 @@ fn structural(r: &mut Report, t: &RoutingTable, v: &View, case: &dyn Fn() -> Val
     ok
 }
 
-fn run_sequence(r: &mut Report, clock: &Clock, rng: &mut Rng, len: usize, case_id: u64, replay_ops: Option<Vec<Op>>) {
+pub fn run_sequence(r: &mut Report, clock: &Clock, rng: &mut Rng, len: usize, case_id: u64, replay_ops: Option<Vec<Op>>) {
     let table_id: [u8; 20] = if rng.chance(1, 4) { bep42_mint(pub_ip(rng), 3, rng.array()) } else { rng.array() };
     let mut hot: Vec<u8> = vec![160, 159, 158];
     for _ in 0..rng.usize(4) {
